@@ -24,7 +24,7 @@ Definition assemble_shape_stmt : Prop :=
     (w_comment w = None -> forall h, assemble fmt w fts body (Some h) = pre +++ body) /\
     (forall c h, w_comment w = Some c ->
        assemble fmt w fts body (Some h) =
-       pre +++ header_comment c h +++ (if String.eqb fmt "gaussian94lib" then "" else nl2) +++ body).
+       pre +++ header_comment c h +++ (if String.eqb fmt "gaussian94lib" then g94lib_sep (header_comment c h) else nl2) +++ body).
 
 (* reading back: lines that start (after stripping) with a character of skipchars, and blank lines, in front of the payload
    do not change what prune_lines hands to the reader *)
